@@ -32,6 +32,7 @@ type lstate struct {
 	writer  bool
 	wholder string
 	readers int
+	managed bool            // the current holder(s) acquired through the kernel
 	waiters []chan struct{} // unmanaged waiters (woken on every state change)
 }
 
@@ -92,6 +93,7 @@ func (c *lockCore) acquire(r *hub.Run, read bool) {
 					s.writer = true
 					s.wholder = who
 				}
+				s.managed = true
 				s.mu.Unlock()
 				r.LogLock(hub.LockEvent{Lock: s.id, Who: who, Op: kind})
 			},
@@ -140,9 +142,15 @@ func (c *lockCore) release(r *hub.Run, read bool) {
 		s.writer = false
 		s.wholder = ""
 	}
+	managed := s.managed
+	if !s.writer && s.readers == 0 {
+		s.managed = false
+	}
 	s.wake()
 	s.mu.Unlock()
-	if r.Managed(hub.CallerPkgFunc()) {
+	// whether the release is logged depends on how the lock was acquired, not on the
+	// caller: a deferred Unlock that runs while a panic unwinds is called by the runtime
+	if managed {
 		op := "unlock"
 		if read {
 			op = "runlock"
